@@ -480,6 +480,16 @@ func (w *world) datagrams(now, offset uint32, full bool) []dg {
 			add("id.alias", refenc.Report{ID: id, Slot: s3, Power: power()}.Signed(w.A.Key.Priv).Bytes())
 		}
 	}
+	// (v') validly signed sentinel powers aimed at slots that ALREADY hold an accepted report
+	for i, old := range w.accepted {
+		if i >= 4 {
+			break
+		}
+		if r, err := refenc.ParseReport(old); err == nil && r.ID == w.A.ID {
+			add("power0.occupied", w.A.Report(r.Slot, 0).Bytes())
+			add("power1.occupied", w.A.Report(r.Slot, 1).Bytes())
+		}
+	}
 	// (x) signature malleability: the algebraic twin (r, N-s) of a genuine signature, for a
 	// report that was already delivered and for one that never was
 	for i, old := range w.accepted {
